@@ -24,6 +24,8 @@ Families (all members visited):
            falsy value 0 / False (a cell that is not blank although it is falsy).
   seq    : two sheets with different title rows read one after the other with the same classes and rule objects
            in a freshly reloaded ak.xlsread (4 rule sets, every ordered pair of their small title rows).
+  mixin  : the declarative spelling (class with the TableReader mixin: ATTR_RULES, STOP_ON, LADDER_FORMAT) for two
+           rule sets x their title rows x every blank pattern of <= 2 data rows x the three modes.
   cells  : every documented raw value of every cell type, whitespace variants of blank cells / titles.
 """
 
@@ -61,7 +63,7 @@ REQUIRED_FEATURES = [
     "range:spans-Z-AA", "range:empty", "range:single", "range:several", "range:stray-second-run",
     "ladder:filled", "ladder:blank-after-first-nonblank", "ladder:multi-row-chain", "ladder:fill-across-range",
     "type:int", "type:str", "type:bool", "type:list", "type:set", "objects:two-per-row", "keys:two",
-    "cells:whitespace-blank", "outside-domain", "seq:two-reads",
+    "cells:whitespace-blank", "outside-domain", "seq:two-reads", "via:table-reader-mixin",
 ]
 
 
@@ -140,11 +142,17 @@ def _real(rsname):
     return out
 
 
-def real_read(rsname, grid, stop_on, ladder):
+def real_read(rsname, grid, stop_on, ladder, via="function"):
     """-> list of rows, each a list with one entry (object or None) per object of the rule set."""
     from ak import xlsread as xr
     ws = X.FakeSheet("sheet1", grid)
     real = _real(rsname)
+    if via == "mixin":
+        # the declarative spelling: a class with the TableReader mixin carrying rules and table options
+        cls, rules = real[0]
+        mixed = type(cls.__name__ + "_T", (cls, xr.TableReader),
+                     {"ATTR_RULES": rules, "STOP_ON": stop_on, "LADDER_FORMAT": ladder})
+        return [[o] for o in mixed.read_list(ws)]
     if len(real) == 1:
         cls, rules = real[0]
         return [[o] for o in xr.read_table(ws, cls, rules, stop_on=stop_on, ladder_format=ladder)]
@@ -313,11 +321,13 @@ def judge(case, acc):
     except X.OutsideDomain as e:
         return {"outside-domain"}, "outside-domain:" + str(e), False, []
     feats = _features(case, rs, exp, info, grid)
+    if case.get("via") == "mixin":
+        feats.add("via:table-reader-mixin")
     viol = []
     lad = ":ladder" if ladder else ""
     acc.trans()
     try:
-        got = real_read(case["rs"], grid, stop_on, ladder)
+        got = real_read(case["rs"], grid, stop_on, ladder, case.get("via", "function"))
     except Exception as e:  # noqa
         viol.append(("raises:" + type(e).__name__, f"reading the sheet raised {type(e).__name__}: {str(e)[:200]}",
                      type(e).__name__, f"{len(exp)} rows"))
@@ -447,11 +457,29 @@ def run_case(case, acc, count=True):
     if count:
         acc.case(nontrivial=nontrivial, features=sorted(feats),
                  outcome=label if not viol else "violation:" + viol[0][0])
+    if count and not viol and nontrivial and acc.evaluations % 101 == 0 and \
+            ("ladder:multi-row-chain" in feats or "range:spans-Z-AA" in feats or "row:none" in feats):
+        acc.sample({"case": case, "read_as": label})
     if viol:
         # one report per case: the most basic disagreement (a wrong row count explains wrong values, a wrong
         # value usually comes with a wrong origin ...)
         sig, msg, obs, exp = min(viol, key=lambda v: _prio(v[0]))
-        if case["ladder"] and sig.endswith(":ladder"):
+        if case.get("via") == "mixin":
+            # does the mixin read the sheet as if the class declared the default options?
+            from mc import core
+            grid = make_grid(case)
+            try:
+                as_default, _ = X.reference_read(grid, RULESETS[case["rs"]], "blank all", False)
+                got = real_read(case["rs"], grid, case["stop_on"], bool(case["ladder"]), "mixin")
+                same_as_default = len(got) == len(as_default) and all(
+                    (g[0] is None) == (e[0] is None) and
+                    (g[0] is None or all(X.same(getattr(g[0], n), e[0][n][0]) for n in e[0]))
+                    for g, e in zip(got, as_default))
+            except Exception:  # noqa
+                same_as_default = False
+            sig = "mixin-ignores-class-options" if same_as_default else sig + ":mixin"
+            msg = "TableReader.read_list with STOP_ON / LADDER_FORMAT declared on the class: " + msg
+        elif case["ladder"] and sig.endswith(":ladder"):
             # ladder-specific only if the same sheet read as a plain table does not show the same disagreement
             from mc import core
             plain = dict(case, ladder=0)
@@ -483,7 +511,7 @@ def bounds(tier):
 
 def shards(tier):
     b = _bounds(tier)
-    out = [("cells",), ("seq", "plain2"), ("seq", "rdict"), ("seq", "optional"), ("seq", "rdictopt")]
+    out = [("cells",), ("mixin",), ("seq", "plain2"), ("seq", "rdict"), ("seq", "optional"), ("seq", "rdictopt")]
     for n in LAYOUT_RULESETS:
         nt = len(title_rows(RULESETS[n], b["layout_maxlen"]))
         step = 1 if nt < 600 else (4 if nt < 4000 else 16)
@@ -510,6 +538,9 @@ def run_shard(shard, tier, seed, acc):
         return
     if kind == "seq":
         _seq_block(acc, shard[1])
+        return
+    if kind == "mixin":
+        _mixin_block(acc)
         return
     if kind == "layout":
         _, n, anchor, k, step = shard
@@ -541,9 +572,7 @@ def run_shard(shard, tier, seed, acc):
                     for stop_on, ladder in MODES:
                         case = {"rs": n, "anchor": 0, "lead": 0, "rows": [t] + data, "stop_on": stop_on,
                                 "ladder": ladder}
-                        viol = run_case(case, acc)
-                        if not viol and mask % 97 == 0 and ladder:
-                            acc.sample(case)
+                        run_case(case, acc)
                     if (mask & 1023) == 0 and acc.expired():
                         return
             # the anchored variant of the widest sheets: ladder substitution across a range spanning Z -> AA
@@ -654,6 +683,22 @@ def _seq_block(acc, n):
                 run_seq({"seq": [sheet(t1, ladder), sheet(t2, ladder)]}, acc)
         if acc.expired():
             return
+
+
+def _mixin_block(acc):
+    for n in ("plain2", "twokey"):
+        rs = RULESETS[n]
+        for t in small_title_rows(rs, 3):
+            w = len(t)
+            if w > len([a for a in rs["objects"][0]["attrs"]]):
+                continue
+            for nr in (1, 2):
+                full = [[generic_value(rs, title, r, c) for c, title in enumerate(t)] for r in range(nr)]
+                for mask in range(1 << (nr * w)):
+                    data = [[None if mask >> (r * w + c) & 1 else full[r][c] for c in range(w)] for r in range(nr)]
+                    for stop_on, ladder in MODES:
+                        run_case({"rs": n, "anchor": 0, "lead": 0, "rows": [t] + data, "stop_on": stop_on,
+                                  "ladder": ladder, "via": "mixin"}, acc)
 
 
 def replay(case, acc):
